@@ -37,7 +37,9 @@ RULE = ('seeded generator. Proxy cases: 1-4 classes built with type() (single/mu
         'generated method is invoked with 0-4 positional and 0-3 keyword arguments (identity-tracked values; keyword names '
         'include timeout/method/args/kwargs) against a dispatcher that raises, or returns a pending result settled with a '
         'value or an error (stub result object or the real scales AsyncResult), or against the real MessageDispatcher over '
-        'a recording sink. URI cases: tcp URIs rendered from 1-20 (sometimes 60) endpoints (dotted names, IPv4, odd hosts, '
+        'a recording sink whose Open() is complete before the calls, completes after all calls were issued (deferred '
+        'dispatch, with and without a call timeout; blocking forms run in greenlets), completes after the calls\' deadline '
+        'or never (the call\'s error is then its TimeoutError). URI cases: tcp URIs rendered from 1-20 (sometimes 60) endpoints (dotted names, IPv4, odd hosts, '
         'ports 0..10^20, scheme case variants), zk URIs (hosts with/without ports, path, optional #name, optional query), '
         'foreign schemes, and mutated/malformed URIs (missing/extra colons, signs, underscores and blanks in ports, '
         'brackets, leading blanks, tabs, non-ASCII). non-trivial = a proxy case with at least one forwarded call, or a URI '
